@@ -11,8 +11,8 @@
    preimage hashes, the two taproot hashes), every MAX_VEC_SIZE in [4, 2^64 - 2] and every element cap. *)
 From Coq Require Import List NArith Bool.
 From Coq.Strings Require Import Byte.
-From EV Require Import Base.Bytes Base.Codec Base.Base64 Gen.Tables Model.Taproot Model.PsetRaw Model.PsetMaps Model.PsetValues Model.PsetTables.
-From EV Require Import Proofs.PsetRaw Proofs.PsetMaps Proofs.PsetValues Proofs.PsetTables.
+From EV Require Import Base.Bytes Base.Codec Base.Base64 Gen.Tables Model.BtcTx Model.Taproot Model.PsetRaw Model.PsetMaps Model.PsetValues Model.PsetTables.
+From EV Require Import Proofs.BtcTx Proofs.PsetRaw Proofs.PsetMaps Proofs.PsetValues Proofs.PsetTables.
 Import ListNotations.
 Open Scope N_scope.
 
@@ -53,6 +53,10 @@ Proof. intros T H i r k v R A. apply (field_reachable maxvec Hmax Hmin T) with (
 (* ---- every well-formed PSET serializes to bytes that deserialize to the same PSET ---- *)
 Theorem C07_rt : forall p, WF p -> DESER (SER p) = POk p.
 Proof. exact (rt_c maxvec Hmax Hmin cap_txin cap_txout cap_vecu8 cap_h32 pt_ok pk_ok xonly_ok Hrip Hsha Hh160 Hh256 Hleaf Hbranch). Qed.
+(* the serialize -> send -> deserialize hop between two blinders (C09's `hop`) is the identity on every well-formed PSET: this IS C07_rt;
+   notes/C07.md lists which C07 fields carry the data C09's model keeps in a PSET *)
+Theorem C07_hop_identity : forall p, WF p -> DESER (SER p) = POk p.
+Proof. exact C07_rt. Qed.
 (* ---- and to base64 text that parses to the same PSET ---- *)
 Theorem C07_rt_text : forall p, WF p ->
   from_str maxvec cap_txin cap_txout cap_vecu8 cap_h32 pt_ok pk_ok xonly_ok Hrip Hsha Hh160 Hh256 Hleaf Hbranch
@@ -113,6 +117,18 @@ Proof. exact (missing_o maxvec cap_txin cap_txout cap_vecu8 cap_h32 pt_ok pk_ok 
 (* inconsistent counts: whatever is accepted has declared counts equal to the number of maps, and nothing after the last map *)
 Theorem C07_rejects_count : forall bs p, DESER bs = POk p -> sanity_check n_inputs n_outputs p = true.
 Proof. exact (counts_c maxvec Hmax Hmin cap_txin cap_txout cap_vecu8 cap_h32 pt_ok pk_ok xonly_ok Hrip Hsha Hh160 Hh256 Hleaf Hbranch). Qed.
+(* ... and conversely: a byte string made of the magic, a global map and k further maps — ANY pairs, only well-framed — is accepted only
+   if k = declared inputs + declared outputs; so whenever the counts the global map declares differ from the number of maps present
+   (too few: the decoder runs into the end of the data; too many: bytes are left over) the byte string is rejected *)
+Theorem C07_rejects_count_converse : forall (gps : list rpair) (ms : list (list rpair)) p, Forall (fits maxvec) gps -> Forall (Forall (fits maxvec)) ms ->
+  DESER (magic ++ enc_rawmap maxvec gps ++ concat (map (enc_rawmap maxvec) ms)) = POk p ->
+  N.of_nat (length ms) = n_inputs (p_global p) + n_outputs (p_global p).
+Proof. exact (framed_count_c maxvec Hmax Hmin cap_txin cap_txout cap_vecu8 cap_h32 pt_ok pk_ok xonly_ok Hrip Hsha Hh160 Hh256 Hleaf Hbranch). Qed.
+Theorem C07_count_mismatch_rejected : forall (gps : list rpair) (ms : list (list rpair)) g r, Forall (fits maxvec) gps -> Forall (Forall (fits maxvec)) ms ->
+  dec_map maxvec TG POSTG (enc_rawmap maxvec gps ++ concat (map (enc_rawmap maxvec) ms)) = POk (g, r) ->
+  N.of_nat (length ms) <> n_inputs g + n_outputs g ->
+  exists e, DESER (magic ++ enc_rawmap maxvec gps ++ concat (map (enc_rawmap maxvec) ms)) = PErr e.
+Proof. exact (count_mismatch_rejected maxvec Hmax Hmin cap_txin cap_txout cap_vecu8 cap_h32 pt_ok pk_ok xonly_ok Hrip Hsha Hh160 Hh256 Hleaf Hbranch). Qed.
 (* invalid hash preimages *)
 Theorem C07_rejects_preimage : forall k v, Hsha v <> k -> VCANON TyPreSha k v = PErr EPreimage.
 Proof. intros k v H. exact (preimage_rejects Hsha k v H). Qed.
@@ -126,9 +142,46 @@ Theorem C07_elip : forall (T : table) m i k v, get_key (set_keyed T m i k v) i k
 Proof. intros T. exact (get_set T). Qed.
 Theorem C07_elip_other : forall (T : table) m i k v i' k', (i', k') <> (i, k) -> get_key (set_keyed T m i k v) i' k' = get_key m i' k'.
 Proof. intros T. exact (get_set_other T). Qed.
-Theorem C07_elip_survives : forall p i k v, WF p -> get_key (p_global p) i k = Some v ->
-  exists p', DESER (SER p) = POk p' /\ get_key (p_global p') i k = Some v.
-Proof. intros p i k v W G. exists p. split; [now apply C07_rt|exact G]. Qed.
+(* metadata set through the accessors on ANY well-formed PSET gives a well-formed PSET (MAX_VEC_SIZE >= 16 so that the prefixed keys fit), hence
+   survives serialization: no assumption on the result *)
+Section ELIP.
+Hypothesis Hmin16 : 16 <= maxvec.
+Notation ADD_ASSET := (add_asset_metadata maxvec cap_txin cap_txout cap_vecu8 cap_h32 pt_ok pk_ok xonly_ok Hrip Hsha Hh160 Hh256 Hleaf Hbranch).
+Notation ADD_TOKEN := (add_token_metadata maxvec cap_txin cap_txout cap_vecu8 cap_h32 pt_ok pk_ok xonly_ok Hrip Hsha Hh160 Hh256 Hleaf Hbranch).
+Notation SET_ABF_IN := (set_abf_input maxvec cap_txin cap_txout cap_vecu8 cap_h32 pt_ok pk_ok xonly_ok Hrip Hsha Hh160 Hh256 Hleaf Hbranch).
+Notation SET_ABF_OUT := (set_abf_output maxvec cap_txin cap_txout cap_vecu8 cap_h32 pt_ok pk_ok xonly_ok Hrip Hsha Hh160 Hh256 Hleaf Hbranch).
+Theorem C07_elip_asset_wf : forall p asset value, WF p ->
+  fitsb maxvec (hww_key maxvec C07_PSBT_ELEMENTS_HWW_GLOBAL_ASSET_METADATA asset) = true -> fitsb maxvec value = true -> WF (ADD_ASSET p asset value).
+Proof. intros p asset value W Fk Fv. apply (set_global_prop_wf maxvec Hmax Hmin); auto. now apply (hww_foreign maxvec Hmax Hmin16). Qed.
+Theorem C07_elip_token_wf : forall p token value, WF p ->
+  fitsb maxvec (hww_key maxvec C07_PSBT_ELEMENTS_HWW_GLOBAL_REISSUANCE_TOKEN token) = true -> fitsb maxvec value = true -> WF (ADD_TOKEN p token value).
+Proof. intros p token value W Fk Fv. apply (set_global_prop_wf maxvec Hmax Hmin); auto. now apply (hww_foreign maxvec Hmax Hmin16). Qed.
+Theorem C07_elip_abf_wf : forall p n abf, WF p -> fitsb maxvec abf = true -> WF (SET_ABF_IN p n abf) /\ WF (SET_ABF_OUT p n abf).
+Proof. intros p n abf W Fv. split; [apply (set_input_prop_wf maxvec Hmax Hmin)|apply (set_output_prop_wf maxvec Hmax Hmin)]; auto;
+  solve [eapply liquidex_fits; eassumption | eapply liquidex_foreign; eassumption]. Qed.
+Theorem C07_elip_survives : forall p asset value, WF p ->
+  fitsb maxvec (hww_key maxvec C07_PSBT_ELEMENTS_HWW_GLOBAL_ASSET_METADATA asset) = true -> fitsb maxvec value = true ->
+  let p' := ADD_ASSET p asset value in
+  get_asset_metadata maxvec p' asset = Some value /\ exists q, DESER (SER p') = POk q /\ get_asset_metadata maxvec q asset = Some value.
+Proof. intros p asset value W Fk Fv p'. assert (G : get_asset_metadata maxvec p' asset = Some value) by apply (get_set TG).
+  split; [exact G|]. exists p'. split; [apply C07_rt; now apply C07_elip_asset_wf|exact G]. Qed.
+Theorem C07_elip_token_survives : forall p token value, WF p ->
+  fitsb maxvec (hww_key maxvec C07_PSBT_ELEMENTS_HWW_GLOBAL_REISSUANCE_TOKEN token) = true -> fitsb maxvec value = true ->
+  let p' := ADD_TOKEN p token value in
+  get_token_metadata maxvec p' token = Some value /\ exists q, DESER (SER p') = POk q /\ get_token_metadata maxvec q token = Some value.
+Proof. intros p token value W Fk Fv p'. assert (G : get_token_metadata maxvec p' token = Some value) by apply (get_set TG).
+  split; [exact G|]. exists p'. split; [apply C07_rt; now apply C07_elip_token_wf|exact G]. Qed.
+Theorem C07_elip_abf_survives : forall p n abf m, WF p -> fitsb maxvec abf = true -> nth_error (p_inputs p) n = Some m ->
+  let p' := SET_ABF_IN p n abf in
+  get_abf_input maxvec p' n = Some abf /\ exists q, DESER (SER p') = POk q /\ get_abf_input maxvec q n = Some abf.
+Proof. intros p n abf m W Fv Hn p'.
+  assert (G : get_abf_input maxvec p' n = Some abf). { unfold get_abf_input, p', set_abf_input, set_input_prop. cbn [p_inputs]. rewrite (nth_upd_nth _ _ _ _ Hn). apply (get_set TI). }
+  split; [exact G|]. exists p'. split; [apply C07_rt; now apply C07_elip_abf_wf|exact G]. Qed.
+End ELIP.
+
+(* ---- the peg-in transaction: bitcoin::Transaction is a concrete codec (no oracle), exact / canonical / complete ---- *)
+Theorem C07_btctx_lawful : Lawful (c_btctx maxvec).
+Proof. exact (c_btctx_lawful maxvec). Qed.
 End C07.
 
 (* ================================================================ witnesses (kernel evaluation on concrete byte strings) *)
